@@ -47,6 +47,7 @@ type Peer struct {
 	RdErr    chan error
 	wmu      sync.Mutex
 	gate     sync.Mutex
+	Faults   *FaultConn // client end of the connection, when dialled with DialFaulty(…, true)
 	c        *sync.Cond
 	condOnce sync.Once
 	nread    int // frames read off the connection (after the version exchange)
@@ -128,9 +129,18 @@ func Encode(fc *p9p.Fcall) ([]byte, error) {
 
 // Dial creates the in-memory connection, answers the version negotiation
 // like a well-behaved server, and returns the client session plus the peer.
-func Dial(ctx context.Context) (p9p.Session, *Peer, error) {
-	cc, sc := net.Pipe()
+func Dial(ctx context.Context) (p9p.Session, *Peer, error) { return DialFaulty(ctx, false) }
+
+// DialFaulty is Dial; with faulty the client's end of the connection is
+// wrapped in a FaultConn (p.Faults) whose Read can be made to fail.
+func DialFaulty(ctx context.Context, faulty bool) (p9p.Session, *Peer, error) {
+	pc, sc := net.Pipe()
+	var cc net.Conn = pc
 	p := &Peer{Conn: sc, Frames: make(chan Frame, 4096), RdErr: make(chan error, 1)}
+	if faulty {
+		p.Faults = NewFaultConn(pc)
+		cc = p.Faults
+	}
 	hs := make(chan error, 1)
 	go func() {
 		f, err := readFrame(sc)
@@ -533,5 +543,117 @@ func (p *Pending) Returned() (Result, bool) {
 		return r, true
 	default:
 		return Result{}, false
+	}
+}
+
+// ReadFault is a read error of the connection.  With NetError it satisfies
+// net.Error with the given Timeout()/Temporary() answers; without, it is a
+// plain error.
+type ReadFault struct {
+	NetError          bool
+	IsTimeout, IsTemp bool
+}
+
+type netFault struct{ timeout, temporary bool }
+
+func (e netFault) Error() string {
+	return fmt.Sprintf("injected read error (net.Error, Timeout=%v, Temporary=%v)", e.timeout, e.temporary)
+}
+func (e netFault) Timeout() bool   { return e.timeout }
+func (e netFault) Temporary() bool { return e.temporary }
+
+type deadlineErr struct{}
+
+func (deadlineErr) Error() string   { return "i/o timeout" }
+func (deadlineErr) Timeout() bool   { return true }
+func (deadlineErr) Temporary() bool { return true }
+
+// FaultConn wraps the client's end of the pipe.  Reads are served from a pump
+// goroutine so that a Read that is blocked waiting for the peer can be made to
+// return an injected error instead; read deadlines are honoured (a timeout
+// error that is Timeout() and Temporary(), like the net package's); writes,
+// write deadlines and Close go to the underlying connection.
+type FaultConn struct {
+	net.Conn
+	chunks chan []byte
+	rest   []byte
+	eof    chan error
+	faults chan error
+	mu     sync.Mutex
+	rdl    time.Time
+}
+
+func NewFaultConn(c net.Conn) *FaultConn {
+	f := &FaultConn{Conn: c, chunks: make(chan []byte), eof: make(chan error, 1), faults: make(chan error)}
+	go func() {
+		for {
+			buf := make([]byte, 64<<10)
+			n, err := c.Read(buf)
+			if n > 0 {
+				f.chunks <- buf[:n]
+			}
+			if err != nil {
+				f.eof <- err
+				return
+			}
+		}
+	}()
+	return f
+}
+
+func (f *FaultConn) SetReadDeadline(t time.Time) error {
+	f.mu.Lock()
+	f.rdl = t
+	f.mu.Unlock()
+	return nil
+}
+
+func (f *FaultConn) SetDeadline(t time.Time) error {
+	f.SetReadDeadline(t)
+	return f.Conn.SetWriteDeadline(t)
+}
+
+func (f *FaultConn) Read(p []byte) (int, error) {
+	if len(f.rest) > 0 {
+		n := copy(p, f.rest)
+		f.rest = f.rest[n:]
+		return n, nil
+	}
+	f.mu.Lock()
+	dl := f.rdl
+	f.mu.Unlock()
+	var timer <-chan time.Time
+	if !dl.IsZero() {
+		t := time.NewTimer(time.Until(dl))
+		defer t.Stop()
+		timer = t.C
+	}
+	select {
+	case b := <-f.chunks:
+		n := copy(p, b)
+		f.rest = b[n:]
+		return n, nil
+	case err := <-f.faults:
+		return 0, err
+	case err := <-f.eof:
+		f.eof <- err
+		return 0, err
+	case <-timer:
+		return 0, deadlineErr{}
+	}
+}
+
+// Inject makes the Read the client is blocked in (or its next one) return the
+// fault; it reports false if no Read took it within Wait.
+func (f *FaultConn) Inject(r ReadFault) bool {
+	var err error = errors.New("injected read error (not a net.Error)")
+	if r.NetError {
+		err = netFault{r.IsTimeout, r.IsTemp}
+	}
+	select {
+	case f.faults <- err:
+		return true
+	case <-time.After(Wait):
+		return false
 	}
 }
